@@ -78,6 +78,14 @@ def retry_loop_rules(ctx, repo, fi, rule, sender_recv, var="retry_count"):
     ctx.ob(rule, f"{key}::fresh-request", len(creates) == 1,
            f"{fi.qual}: the request is not built by create_func() inside the retry loop (found {len(creates)} in-loop constructions): retries would resend a stale handler/sequence number", fi.loc)
     req = None
+
+    def canon(e, at):
+        # the request under whatever local name it travels (`r1 = create_func(); request = r1`): compared after
+        # replacing single-definition locals by their defining expressions
+        try:
+            return ast.unparse(g.expand(e if isinstance(e, ast.AST) else ast.parse(e, mode="eval").body, at=at))
+        except (RecursionError, SyntaxError):
+            return ast.unparse(e) if isinstance(e, ast.AST) else e
     if len(creates) == 1 and sends:
         req = ast.unparse(creates[0].ast.targets[0])
         S = sends[0]
@@ -88,11 +96,12 @@ def retry_loop_rules(ctx, repo, fi, rule, sender_recv, var="retry_count"):
                f"{fi.qual}: a send can happen in an iteration without a freshly created request", loc(fi, S.ast))
         c = [c for n, c in calls_named(g, "queue_send") if n is S][0]
         a0 = ast.unparse(c.args[0]) if c.args else ""
-        ctx.ob(rule, f"{key}::sends-the-fresh-request", a0 == req, f"{fi.qual}: queue_send is given `{a0}`, not the request built this attempt (`{req}`)", loc(fi, S.ast))
+        ctx.ob(rule, f"{key}::sends-the-fresh-request", a0 == req or (bool(c.args) and canon(c.args[0], S) == canon(req, S)),
+               f"{fi.qual}: queue_send is given `{a0}`, not the request built this attempt (`{req}`)", loc(fi, S.ast))
         # not rebound between create and send
         waits = [(n, c) for n, c in calls_named(g, "wait_for_response")]
         for n, c in waits:
-            ctx.ob(rule, f"{key}::waits-on-the-sent-request", receiver(c) == req,
+            ctx.ob(rule, f"{key}::waits-on-the-sent-request", receiver(c) == req or (isinstance(c.func, ast.Attribute) and canon(c.func.value, n) == canon(req, n)),
                    f"{fi.qual}: waits on `{receiver(c)}` instead of the request just sent", loc(fi, n.ast))
     return g, h, req
 
@@ -173,7 +182,14 @@ def check(ctx):
                 else:
                     facts = g.iter_guard_atoms(n)
                     okw = any(p and "wait_for_response(" in t for t, p in facts)
-                    ctx.ob("R1", f"{get.qual}::reply-only-if-delivered", okw and ast.unparse(v) == req,
+
+                    def _canon(e):
+                        try:
+                            return ast.unparse(g.expand(e, at=n))
+                        except RecursionError:
+                            return ast.unparse(e)
+                    same = ast.unparse(v) == req or _canon(v) == _canon(ast.parse(req, mode="eval").body)
+                    ctx.ob("R1", f"{get.qual}::reply-only-if-delivered", okw and same,
                            f"{get.qual}: returns `{ast.unparse(v)}` (L{n.lineno}) on a path where no reply was delivered for this request; guards {sorted(facts)}",
                            loc(get, n.ast), sample={"rule": "R1", "return": ast.unparse(n.ast), "guards": sorted(map(str, facts))})
         # falls off the end -> None: acceptable only if annotated Optional; treat exit preds
